@@ -545,7 +545,7 @@ ocp.set_der(v, a)
             s = self.signals[vars]
             self.opti.subject_to(self.eval(stage,lb - b <= (Jmul @ s.coeff <= ub-b)))
 
-    def set_initial(self, stage, master, initial):
+    def set_initial(self, stage, master, initial, follow_time_grid=True):
         opti = master.opti if hasattr(master, 'opti') else master
         opti_initial = opti.initial()
         t0 = opti.debug.value(self.t0, opti_initial)
